@@ -37,7 +37,7 @@ cd /repo && git diff --quiet || { echo "/repo not clean"; exit 2; }
 git apply $SRC/patch.diff || exit 2
 OUT=""
 for C in $CHECKS; do
-  R=$(cd /verif && VERIF_SHRINK_S=8 ./check run $C --tier quick 2>&1 | grep -E "^VIOLATION|class=|check: property=.*runs=|MACHINERY|KNOWN|^  [a-zA-Z]" | cut -c1-400)
+  R=$(cd /verif && VERIF_SHRINK_S=8 ./check run $C --tier quick 2>&1 | grep -a -E "^VIOLATION|class=|check: property=.*runs=|MACHINERY|KNOWN|^  [a-zA-Z]" | cut -c1-400)
   OUT="$OUT
 [$C] $R"
 done
